@@ -47,3 +47,43 @@ Definition run_pair (mods : list (module * nat * list (maybe value)))
              end
       end
   end.
+
+(* ---- C01: executable check of prefix stability on the model's result trees ---- *)
+Definition mle_b {A} (eqb : A -> A -> bool) (a b : maybe A) : bool :=
+  match a, b with
+  | None, _ => true
+  | Some x, Some y => eqb x y
+  | Some _, None => false
+  end.
+
+Fixpoint stable_b (fuel : nat) (r r' : fres) {struct fuel} : bool :=
+  match fuel with
+  | O => true
+  | S f =>
+      mle_b Bool.eqb (fr_has r) (fr_has r')
+      && (if fr_ok r then fr_ok r' && opt_value_eqb (fr_val r) (fr_val r') else true)
+      && mle_b Z.eqb (fr_ssize r) (fr_ssize r')
+      && implb (fr_sok r) (fr_sok r') && implb (fr_scomplete r) (fr_scomplete r')
+      && forallb2 (fun a b => match a, b with
+                              | Some x, Some y => stable_b f x y
+                              | None, None => true
+                              | _, _ => false
+                              end) (fr_sub r) (fr_sub r')
+      && (if fr_ok r then forallb2 (stable_b f) (fr_elems r) (fr_elems r') else true)
+  end.
+
+(* 1 = everything known on the prefix is kept; 0 = some known observation changed *)
+Definition run_stable (mods : list (module * nat * list (maybe value))) (c : nat * (list Z * list Z)) : list Z :=
+  match nth_error mods (fst c) with
+  | None => []
+  | Some (m, tid, ps) =>
+      match nth_error m tid with
+      | None => []
+      | Some d =>
+          let b := fst (snd c) in
+          let b' := b ++ snd (snd c) in
+          let r := eval_struct m b 8 d ps true (SB (Some (0, Z.of_nat (length b)))) in
+          let r' := eval_struct m b' 8 d ps true (SB (Some (0, Z.of_nat (length b')))) in
+          [obs_bool (stable_b 8 r r')]
+      end
+  end.
